@@ -445,6 +445,34 @@ theorem pruner_cutoff_unsound_pinned :
     Pruner.cutoff ⟨false, true⟩ ⟨31, 5, 8, 1, none⟩ = none ∧ Pruner.cutoff Pruner.Cfg.fixed ⟨31, 5, 8, 1, none⟩ = some 1 := by
   decide
 
+/-- The pruner's resume token vs. a death between the pruner's last commit and the runner's commit.
+`Pruner.Finished c h d`: the disk after a run that finished the pruner with cutoff `c` (history of every
+kept block live, scratch wiped) — and the runner did NOT record it, so whatever token an earlier
+cancellation stored is still there. With the PROPOSED guard (stager-phase token above the cutoff +
+empty scratch ⇒ restage from the cutoff; ABOUT A PROPOSED PATCH until applied — the harness family
+`pruner-stale-token` compares the set of blocks that lose their history with `Pruner.finish` for
+both variants) the next completed run keeps the history of every kept block, for every well-formed
+token (restorer = 0 only in the stager phase). -/
+theorem pruner_stale_token_sound (c h : Nat) (tok : Pruner.Token) (d : Pruner.Disk) (hd : Pruner.Finished c h d)
+    (htok : tok.2 = 0 → tok.1 ≤ h) (b : Nat) (hc : c ≤ b) (hh : b ≤ h) :
+    b ∈ (Pruner.finish true c h tok d).live :=
+  Pruner.finish_guarded_keeps c h tok d hd htok b hc hh
+
+/-- PARTIAL (current code, and the patched one): no loss when the stored token is not a stager-phase
+token above the cutoff (no token / stager at or below the cutoff / restorer phase). -/
+theorem pruner_stale_token_sound_partial (guard : Bool) (c h : Nat) (tok : Pruner.Token) (d : Pruner.Disk)
+    (hd : Pruner.Finished c h d) (hfresh : tok.1 ≤ c ∨ tok.2 ≠ 0) (b : Nat) (hc : c ≤ b) (hh : b ≤ h) :
+    b ∈ (Pruner.finish guard c h tok d).live :=
+  Pruner.finish_partial guard c h tok d hd hfresh b hc hh
+
+/-- NEGATION (current code): cutoff 5, height 9, a cancellation left the token (8, 0); a later run
+finished the pruner and died before the runner's commit; the restart loses the history of blocks
+5, 6, 7 — exactly the blocks between the cutoff and the token — where the guarded variant loses none. -/
+theorem pruner_stale_token_loses_history_pinned :
+    Pruner.lost 5 9 (Pruner.finish false 5 9 (8, 0) ⟨[5, 6, 7, 8, 9], []⟩) = [5, 6, 7] ∧
+    Pruner.lost 5 9 (Pruner.finish true 5 9 (8, 0) ⟨[5, 6, 7, 8, 9], []⟩) = [] := by
+  decide
+
 /-! ## The head-state consolidation -/
 
 /-- For every set of contracts (class hash, optional nonce, deployment height), from every image in
